@@ -273,7 +273,7 @@ def cases(ctx, with_ctcs, big):
     nrand = 250 if tier == "quick" else 3000
     for i in range(nrand):
         n = g.rng.randint(2, 11 if tier == "quick" else 13)
-        m = g.model(n, n_ctcs=(g.rng.choice([0, 1, 2, 3]) if with_ctcs else 0), kinds=kinds,
+        m = g.model(n, n_ctcs=(g.rng.choice([0, 1, 2, 3]) if with_ctcs else 0), kinds=kinds, fcard=True,
                     ctc_depth=2, name_classes=("plain", "space", "keyword", "nonascii"))
         yield "random", m
     if "star" in big:
